@@ -26,7 +26,7 @@ PROBES = ('fault_raised', 'fault_same_plaintext', 'fault_not_encrypted_refusal',
           'splice_two_messages', 'sweep_bits', 'producer_ref', 'producer_pgpy', 'multi_recipient')
 FAULTS = ('flip_esk', 'flip_esk', 'flip_version', 'flip_body', 'flip_body', 'flip_mdc', 'flip_header', 'truncate_raw', 'truncate_reframed',
           'extend_inside', 'extend_after', 'swap_blocks', 'splice_container', 'splice_esk', 'mdc_swap', 'drop_esk', 'dup_esk',
-          'reorder_esk', 'second_container', 'wrong_pass', 'non_recipient')
+          'reorder_esk', 'second_container', 'inject_plain', 'wrong_pass', 'non_recipient')
 # not generated: re-labelling the container as a legacy tag-9 packet ("downgrade").  PGPy, like RFC 4880, accepts
 # packets without integrity protection; what comes out of one is not covered by a property about integrity-
 # protected messages (an earlier version of this check raised an alarm on it under VERIF_SEED=1; removed as unsound).
@@ -189,6 +189,11 @@ def apply_fault(enc, other, f, bs):
         raws = [x[0].raw for x in esks]
         raws = raws[1:] + raws[:1]
         return b''.join(raws) + c.raw
+    if k == 'inject_plain':
+        # an unencrypted literal data packet in front of the container: at the very start, or after any of the session-key packets
+        spots = [0] + [x[3] for x in esks]
+        at = spots[f['alt'] % len(spots)]
+        return enc[:at] + encode_packet(11, b'b\x00\x00\x00\x00\x00injected plaintext') + enc[at:]
     if k == 'second_container':
         return enc + encode_packet(18, b'\x01' + bytes(40))
     if k == 'strip_mdc_to_sed':
@@ -299,12 +304,18 @@ def _produce(pgpy, R, step, recips, ctx, tag):
     return bytes(out), orig_bytes, orig_shape
 
 
-def _decrypt(pgpy, R, wire, kind, who):
+def _decrypt(pgpy, R, wire, kind, who, intact=False):
     m = pgpy.PGPMessage.from_blob(wire)
     if kind == 'key':
         dec = R.keys[who].decrypt(m)
         if dec is m:
-            return None        # "This message is not encrypted" refusal
+            # "This message is not encrypted": the input is handed back with a warning, which counts as a refusal - unless
+            # the delivered octets still hold the untouched encrypted container next to injected packets (intact): a reader
+            # that presents such a stream as a plaintext message has silently dropped the ciphertext, and the outcome is
+            # judged like any other
+            if intact and not m.is_encrypted:
+                return dec
+            return None
         return dec
     return m.decrypt(who)
 
@@ -314,7 +325,7 @@ def _deliver(pgpy, R, mut, recips, orig_shape, fkind, ctx, step):
         ctx.checked()
         try:
             with watchdog(30):
-                dec = _decrypt(pgpy, R, mut, kind, who)
+                dec = _decrypt(pgpy, R, mut, kind, who, intact=fkind in ('inject_plain', 'extend_after', 'second_container'))
                 if dec is None:
                     ctx.probe('fault_not_encrypted_refusal')
                     continue
